@@ -1,9 +1,10 @@
 (* FSolveAll.v — FortranEngine.solve (one call of the template's `solve` over all periods, then the wrapper's result loop)
    refines SolverMixin.solve of the pure-Python class (a loop of solve_t calls): theorems about FSolve.w_solve /
-   FSolve.py_solve for every number type, arithmetic and equations block, while values stay finite. *)
+   FSolve.py_solve for every number type, arithmetic and equations block, while the values of the passes that run stay
+   finite. *)
 From Coq Require Import ZArith List Bool Lia ZifyBool.
 Import ListNotations.
-Require Import PyBase Solver SolverFacts FSem FSolve FSolveFacts FSolveSim.
+Require Import PyBase Solver SolverFacts FSem FSolve FSolveFacts FSolveSim FSolveRun.
 Open Scope Z_scope.
 
 Section SolveAll.
@@ -27,7 +28,6 @@ Section SolveAll.
   Notation seeded := (seeded num zero).
   Notation iterv := (iterv num evf).
   Notation chk := (chk num zero evf).
-  Notation stays_finite := (stays_finite num isfin zero evf).
 
   Variables (fm : fmod) (d : mdesc) (o : opts num) (n m : nat) (ec fc : Z) (fl : failmode).
   Hypothesis Hm : (0 < m)%nat.
@@ -46,13 +46,12 @@ Section SolveAll.
 
   Notation N := (Z.to_nat (max_iter o)).
 
-  (* what one period needs, given the store it starts from *)
+  (* what one period needs, given the store it starts from: room for the lags / leads, an in-span offset, finite check values
+     to start from, and passes that evaluate without raising and stay finite — as far as they run (FSolveRun.run_ok) *)
   Definition period_ok (p : nat) (v : vals) : Prop :=
     (p < n)%nat /\ feasible d n p = true /\ (offset o = 0 \/ 0 <= Z.of_nat p + offset o < Z.of_nat n) /\
-    (forall i k, (i < N)%nat ->
-       ev (Z.of_nat p) (errors o) (catch_first o) k (iterv p (seeded d o v p) i)
-       = (evf (Z.of_nat p + 1) (iterv p (seeded d o v p) i), None)) /\
-    stays_finite d p (seeded d o v p) N.
+    all_finite (get_check d (seeded d o v p) p) = true /\
+    run_ok num sub absf ltb isfin zero evf ev d o (Z.of_nat p) p (seeded d o v p) N 0.
 
   Definition period_args (p : nat) (v : vals) : fout num :=
     t_solve_t fm v (Z.of_nat p + 1) (min_iter o) (max_iter o) (tol o) (offset o) (cv_of d) ec.
@@ -76,29 +75,23 @@ Section SolveAll.
       (mkState v' (upd p (if b then Solved else Failed) st) (upd p (Z.of_nat k) it) lg',
        if b then Ret true else if fail_raise o then Raise NonConvergenceError else Ret false).
   Proof.
-    intros Hs Hlen (Hp & Hfeas & Hoff & Hev & Hfin).
+    intros Hs Hlen (Hp & Hfeas & Hoff & Hchk0 & Hrun).
     set (v0 := seeded d o v p) in *.
     assert (Hs0 : shape n m v0) by (apply seeded_shape; exact Hs).
     assert (Hg : t_guard fm (Z.of_nat n) (Z.of_nat p + 1) = 0).
     { rewrite (t_guard_feasible fm d n p Hfl Hfd Hp), Hfeas. reflexivity. }
-    assert (Hchk0 : all_finite (get_check d v0 p) = true) by (apply (Hfin 0%nat); lia).
-    assert (Hfinc : forall i, (0 <= i <= 0 + N)%nat -> all_finite (chk d p v0 i) = true) by (intros i Hi; apply Hfin; lia).
     assert (Haft : forall em cf k w, no_hook num (Z.of_nat p) em cf k w = (w, None)) by reflexivity.
-    destruct (loop_finite num sub absf ltb isfin zero evf ev (no_hook num) d o (Z.of_nat p) p n m v0 N Hev Haft Hp Hm
-                N 0%nat (lg ++ [EvBefore (Z.of_nat p)]) ltac:(lia) Hfinc) as (i & x & k & lg' & Hloop & Hx).
-    cbn [FSolveSim.iterv] in Hloop. unfold FSolveSim.chk in Hloop. cbn [FSolveSim.iterv] in Hloop.
-    pose proof (sim num sub absf ltb isfin zero evf ev (no_hook num) fm d o (Z.of_nat p) p n m ec v0 N Hev Haft
-                  (Hshape (Z.of_nat p + 1)) Hp Hm Hg Hchk Hend Hfe Hec N 0%nat (lg ++ [EvBefore (Z.of_nat p)]) (-1)
-                  ltac:(lia) Hs0 (finite_regime num sub absf ltb isfin zero evf d o p v0 N Hfin)) as Hsim.
-    cbn [FSolveSim.iterv] in Hsim. unfold FSolveSim.chk in Hsim. cbn [FSolveSim.iterv] in Hsim.
-    change (Z.of_nat 1) with 1 in Hsim. rewrite Hloop in Hsim.
+    destruct (sim_run num sub absf ltb isfin zero evf ev (no_hook num) fm d o (Z.of_nat p) p n m ec v0 Haft
+                (Hshape (Z.of_nat p + 1)) Hp Hm Hg Hchk Hend Hfe N 0%nat (lg ++ [EvBefore (Z.of_nat p)]) (-1) Hs0 Hchk0 Hrun)
+      as (i & x & k & lg' & Hloop & Hx & Hsim).
+    cbn [FSolveSim.iterv] in Hloop, Hsim. unfold FSolveSim.chk in Hloop, Hsim. cbn [FSolveSim.iterv] in Hloop, Hsim.
+    change (Z.of_nat 1) with 1 in Hsim.
     assert (HN : (N =? 0)%nat = false) by (apply Nat.eqb_neq; lia). rewrite HN in Hsim.
     exists (iterv p v0 i), (st_eqb x Solved), k, lg'. split; [|split].
     - unfold period_args.
       rewrite (t_solve_t_spec num sub absf ltb isfin zero evf fm d o (Z.of_nat p + 1) p n m ec v Hs Hm Hp Hchk Hend Hfe
                  (t_index_idem n p) Hg Hoff).
-      fold v0. rewrite ec_raise_iff, Hchk0, andb_false_r. rewrite Hsim.
-      destruct Hx as [-> | ->]; reflexivity.
+      fold v0. rewrite ec_raise_iff, Hchk0, andb_false_r. exact Hsim.
     - apply (iterv_shape num evf p n m v0 (Hshape (Z.of_nat p + 1)) Hs0).
     - assert (Hlt : (max_iter o <? min_iter o) = false) by lia.
       unfold Solver.solve_t_M. cbn [status vals_of log iters]. rewrite Hlt, Hlen.
